@@ -9,6 +9,8 @@ import LogosModel.Attr
 import LogosModel.Bump
 import LogosModel.Strip
 import LogosModel.Derive
+import LogosModel.Api
+import Std.Data.HashMap
 import LogosModel.Source
 import Std.Data.HashSet
 /-!
@@ -384,48 +386,99 @@ def cliAnswer (check file output : String) : String :=
     | some c => hexOf ((String.ofList c).toUTF8.toList.map fun (b : UInt8) => b.toNat)
   s!"{st} {fs}"
 
-partial def run (h : IO.FS.Stream) (out : IO.FS.Stream) (cur : Case) : IO Unit := do
+/-! ## C14: API histories -/
+
+def parseOps : List String → List ApiOp
+  | "next" :: i :: rest => .next i.toNat! :: parseOps rest
+  | "snext" :: i :: rest => .snext i.toNat! :: parseOps rest
+  | "bump" :: i :: n :: rest => .bump i.toNat! n.toNat! :: parseOps rest
+  | "clone" :: i :: rest => .clone i.toNat! :: parseOps rest
+  | "morph" :: i :: rest => .morph i.toNat! :: parseOps rest
+  | _ :: rest => parseOps rest
+  | [] => []
+
+def lexStStr (st : LexSt) : String :=
+  s!"{if st.ty == 0 then "A" else "B"}:{st.start}-{st.stop}:x{st.extras}"
+
+def nextResStr (c : Case) : NextRes → String
+  | .item (.ok l _ _) => c.names.getD l "?"
+  | .item (.err _ _ _) => "Err"
+  | .none _ _ => "None"
+  | .diverge => "DIVERGE"
+
+def apiAnswer (ca cb : Case) (src : List Nat) (isPrefix : Bool) (ops : List ApiOp) : String :=
+  let env : ApiEnv := { gA := ca.graph, gB := cb.graph, cbA := ca.cb, cbB := cb.cb, src := src, isPrefix := isPrefix }
+  let rec go (pool : List LexSt) (ops : List ApiOp) (acc : List String) : List String :=
+    match ops with
+    | [] => acc.reverse
+    | op :: rest =>
+      let r := apiStep env pool op
+      let st := r.1.getD r.2.1 ⟨0, 0, 0, 0⟩
+      let cse := if st.ty == 0 then ca else cb
+      let pre := match r.2.2 with
+        | .item x =>
+          -- the item was produced by the lexer's type *before* the call (same as after: next does not morph)
+          nextResStr cse x
+        | .spanned x sp =>
+          (match x, sp with
+           | .item _, some (a, b) => s!"{nextResStr cse x}@{a}-{b}"
+           | _, _ => nextResStr cse x)
+        | .bumped ok => if ok then "ok" else "panic"
+        | .cloned => "clone"
+        | .morphed => "morph"
+        | .noLexer => "nolexer"
+      go r.1 rest (s!"{pre}={lexStStr st}" :: acc)
+  " ".intercalate (go [⟨0, 0, 0, 7⟩] ops [])
+
+partial def run (h : IO.FS.Stream) (out : IO.FS.Stream) (cur : Case) (tbl : Std.HashMap String Case := {}) : IO Unit := do
   let line ← h.getLine
   if line.isEmpty then return ()
   let toks := (line.trimAscii.toString.splitOn " ").filter (· ≠ "")
   match toks with
-  | "CASE" :: n :: _ => run h out { name := n }
-  | "DEF" :: u :: _ :: _ :: r :: _ => run h out { cur with nodump := false, root := r.toNat!, utf8 := u == "1" }
+  | "CASE" :: n :: _ => run h out { name := n } (tbl.insert cur.name cur)
+  | "DEF" :: u :: _ :: _ :: r :: _ => run h out { cur with nodump := false, root := r.toNat!, utf8 := u == "1" } tbl
   | "LEAF" :: _ :: p :: k :: _ :: name :: _ =>
     run h out { cur with prios := cur.prios.push p.toNat!, kinds := cur.kinds.push k.toNat!,
-                         names := cur.names.push name, cbs := cur.cbs.push 0 }
+                         names := cur.names.push name, cbs := cur.cbs.push 0 } tbl
   | "HIR" :: _ :: rest =>
     let nums := rest.map String.toNat!
     match parseHir nums with
-    | some (hir, _) => run h out { cur with hirs := cur.hirs.push hir }
-    | none => run h out { cur with hirs := cur.hirs.push (.look 999) }
+    | some (hir, _) => run h out { cur with hirs := cur.hirs.push hir } tbl
+    | none => run h out { cur with hirs := cur.hirs.push (.look 999) } tbl
   | "STATE" :: _ :: e :: a :: eoi :: _ =>
     let sd : StateData := { early := optOf (e.toInt?.getD 0), accept := optOf (a.toInt?.getD 0), eoi := optOf (eoi.toInt?.getD 0) }
-    run h out { cur with states := cur.states.push sd }
+    run h out { cur with states := cur.states.push sd } tbl
   | "EDGE" :: s :: t :: _ :: rest =>
     let e : Edge := { ranges := pairsOf (rest.map String.toNat!), target := t.toNat! }
-    run h out { cur with states := cur.states.modify s.toNat! fun sd => { sd with normal := sd.normal ++ [e] } }
-  | "GERR" :: _ => run h out { cur with gerr := cur.gerr + 1 }
-  | "CB" :: i :: k :: _ => run h out { cur with cbs := cur.cbs.setIfInBounds i.toNat! k.toNat! }
-  | "ERRCB" :: v :: _ => run h out { cur with errCb := v == "1" }
+    run h out { cur with states := cur.states.modify s.toNat! fun sd => { sd with normal := sd.normal ++ [e] } } tbl
+  | "GERR" :: _ => run h out { cur with gerr := cur.gerr + 1 } tbl
+  | "CB" :: i :: k :: _ => run h out { cur with cbs := cur.cbs.setIfInBounds i.toNat! k.toNat! } tbl
+  | "ERRCB" :: v :: _ => run h out { cur with errCb := v == "1" } tbl
   | ["Q", "BUMP", mode, hexsrc, st, en, n] =>
     out.putStrLn s!"{cur.name} BUMP {mode} {hexsrc} {st} {en} {n} : {bumpAnswer mode hexsrc st en n}"
-    run h out cur
+    run h out cur tbl
   | ["Q", "READ", hexsrc, off, size] =>
     out.putStrLn s!"{cur.name} READ {hexsrc} {off} {size} : {readAnswer hexsrc off size}"
-    run h out cur
+    run h out cur tbl
+  | "Q" :: "API" :: a :: b :: hexsrc :: pfx :: ops =>
+    let tbl' := tbl.insert cur.name cur
+    let ans := match tbl'.get? a, tbl'.get? b with
+      | some ca, some cb => apiAnswer ca cb (unhex hexsrc) (pfx == "1") (parseOps ops)
+      | _, _ => "NOCASE"
+    out.putStrLn s!"{cur.name} API {a} {b} {hexsrc} {pfx} {" ".intercalate ops} : {ans}"
+    run h out cur tbl
   | "Q" :: "STRIPDERIVE" :: toks =>
     out.putStrLn s!"{cur.name} STRIPDERIVE {" ".intercalate toks} : {stripAnswer toks}"
-    run h out cur
+    run h out cur tbl
   | ["Q", "CLI", check, file, output] =>
     out.putStrLn s!"{cur.name} CLI {check} {file} {output} : {cliAnswer check file output}"
-    run h out cur
+    run h out cur tbl
   | "Q" :: "ATTR" :: flag :: toks =>
     out.putStrLn s!"{cur.name} ATTR {flag} {" ".intercalate toks} : {attrAnswer flag toks}"
-    run h out cur
+    run h out cur tbl
   | "Q" :: q =>
     out.putStrLn s!"{cur.name} {" ".intercalate q} : {answer cur q}"
-    run h out cur
-  | _ => run h out cur
+    run h out cur tbl
+  | _ => run h out cur tbl
 
 end Logos
